@@ -4,7 +4,7 @@ from symx.stubs import call_returns
 import operon_ai.healing.chaperone_loop as CL
 import operon_ai.healing.regenerative_swarm as RS
 from operon_ai.healing.chaperone_loop import ChaperoneLoop, HealingOutcome
-from operon_ai.healing.regenerative_swarm import RegenerativeSwarm, SimpleWorker, WorkerMemory
+from operon_ai.healing.regenerative_swarm import RegenerativeSwarm, SimpleWorker, WorkerMemory, create_default_summarizer
 from operon_ai.organelles.chaperone import EnhancedFoldedProtein, Chaperone
 from operon_ai.organelles.nucleus import Nucleus
 from operon_ai.organelles.mitochondria import Mitochondria
@@ -90,7 +90,9 @@ def heal(limit_hi):
     return h
 
 
-def swarm(limit_hi):
+def swarm(limit_hi, mode="workers"):
+    """mode 'workers': full adversarial worker alphabet, summariser always returns a hint;
+    mode 'summaries': adversarial summariser (stock one, or a stub returning a hint or nothing per call), slim worker alphabet"""
     def h(c):
         maxreg = c.int("max_regenerations", 0, limit_hi)
         maxsteps = c.int("max_steps_per_worker", 0, limit_hi)
@@ -107,7 +109,7 @@ def swarm(limit_hi):
 
             def work(task, memory):
                 steps[name] += 1
-                b = c.choice("step", ["novel", "repeat", "marker", "marker_lower", "crash"])
+                b = c.choice("step", ["novel", "repeat", "marker", "marker_lower", "crash"] if mode == "workers" else ["repeat", "marker", "crash"])
                 if b == "crash":
                     crashed.append(name)
                     raise RuntimeError("worker crashed")
@@ -121,7 +123,22 @@ def swarm(limit_hi):
                 return f"idea {uniq[0]}"
             return SimpleWorker(id=name, work_function=work)
 
-        sw = RegenerativeSwarm(worker_factory=factory, summarizer=lambda m: [f"tried {len(m.task_history)}"],
+        # the summariser is part of the adversarial environment: the stock one (empty for a worker that never
+        # stepped), or a stub that per call returns a hint or nothing at all
+        summ_kind = c.choice("summarizer", ["stub", "default"]) if mode == "summaries" else "stub"
+        summaries = []
+
+        def stub_summarizer(m):
+            out = [f"tried {len(m.task_history)}"] if mode == "workers" or c.choice("summary", ["hint", "empty"]) == "hint" else []
+            summaries.append(list(out))
+            return out
+        default_summarizer = create_default_summarizer()
+
+        def rec_default(m):
+            out = default_summarizer(m)
+            summaries.append(list(out))
+            return out
+        sw = RegenerativeSwarm(worker_factory=factory, summarizer=stub_summarizer if summ_kind == "stub" else rec_default,
                                max_steps_per_worker=maxsteps, max_regenerations=maxreg, silent=True)
         try:
             st, res = call_returns(c, "C18.total", "supervise", sw.supervise, "task")
@@ -149,8 +166,7 @@ def swarm(limit_hi):
             c.check("C18.e", res.output is None, {"what": "failed swarm released an output", **info})
             c.check("C18.d-exhaust", eq(len(workers), maxreg + 1), {"what": "gave up before using all regenerations", **info})
         c.check("C18.d", res.total_workers_spawned == len(workers), {"what": "reported worker count", **info})
-        for i in range(1, len(workers)):
-            c.check("C18.e-hints", workers[i][1] and workers[i][1][0].startswith("tried "), {"what": "regenerated worker did not receive the summary", **info})
+        # (what a regenerated worker receives as hints is not part of the statement: not asserted)
     return h
 
 
@@ -209,7 +225,7 @@ def tool_loop(limit_hi):
 HARNESSES = {
     "heal": {"make": heal, "jobs": lambda tier: [{"limit_hi": 4 if tier == "quick" else 5}], "witness_every": 11,
              "clauses": ["C18.a", "C18.b", "C18.c", "C18.a-exhaust"]},
-    "swarm": {"make": swarm, "jobs": lambda tier: [{"limit_hi": 3}], "witness_every": 11,
+    "swarm": {"make": swarm, "jobs": lambda tier: [{"limit_hi": 3}, {"limit_hi": 3, "mode": "summaries"}], "witness_every": 11,
               "clauses": ["C18.d", "C18.d-steps", "C18.e", "C18.d-exhaust"]},
     "tool_loop": {"make": tool_loop, "jobs": lambda tier: [{"limit_hi": 4}], "witness_every": 5,
                   "clauses": ["C18.f", "C18.f-tools"]},
